@@ -88,7 +88,11 @@ pub fn step(ctx: &Ctx, w: &World, ev: &mut Ev) {
             return;
         }
         let actor = w.resolve(&ctx.step.actor);
-        let wl = pq_bool(ctx.preq, "whitelisted").unwrap_or(false);
+        // whitelisted = added by an accepted AddWhitelist and not removed since (the engine's own answer is only counted)
+        let wl = ctx.model.whitelist.contains(&actor);
+        if pq_bool(ctx.preq, "whitelisted").map(|q| q != wl).unwrap_or(false) {
+            ev.count("whitelist_query_differs_from_history");
+        }
         let class = match classify_open(ctx, w) {
             Some(c) => c,
             None => return,
@@ -114,5 +118,47 @@ pub fn step(ctx: &Ctx, w: &World, ev: &mut Ev) {
         if vo.holding_cap != 0 && after.unsigned_abs() > vo.holding_cap {
             ev.violation("holding_cap", class.kind.s(), json!({"size": after.to_string(), "cap": vo.holding_cap.to_string()}));
         }
+    }
+}
+
+/// "whitelisted traders are exempt": an OpenPosition of a whitelisted trader that was refused on a vAMM with caps is
+/// repeated in a fork of the unchanged state with both caps switched off by the vAMM's owner - if it then succeeds, the
+/// caps alone refused it.
+pub fn exempt_probe(r: &mut crate::run::Runner, step: &Step) {
+    let out = match &r.last {
+        Some((o, _, _)) => o.clone(),
+        None => return,
+    };
+    if out.ok || r.w.cfg.kind != WorldKind::Standard {
+        return;
+    }
+    let v = match &step.op {
+        Op::Open { vamm, .. } => *vamm,
+        _ => return,
+    };
+    let actor = r.w.resolve(&step.actor);
+    let vo = match r.obs.vamms.get(v) {
+        Some(x) if x.ok && (x.oi_cap != 0 || x.holding_cap != 0) => x.clone(),
+        _ => return,
+    };
+    if !r.model.whitelist.contains(&actor) {
+        return;
+    }
+    let (a, op, f) = (step.actor.clone(), step.op.clone(), step.funds);
+    let owner = vo.owner.clone();
+    let alt = r.fork(|w| {
+        let c = w.exec(&owner, &Op::VammConfig { vamm: v, holding_cap: Some(0), oi_cap: Some(0), toll: None, spread: None, fluct: None, margin_engine: None, insurance_fund: None, pricefeed: None, twap_interval: None }, 0, None);
+        if !c.ok {
+            return None;
+        }
+        Some(w.exec(&a, &op, f, None))
+    });
+    let alt = match alt {
+        Some(x) => x,
+        None => return,
+    };
+    r.ev.eval(true, &("whitelisted_refused", alt.ok), || json!({"whitelisted_trader_refused": actor, "accepted_with_caps_off": alt.ok, "oi_cap": vo.oi_cap.to_string(), "holding_cap": vo.holding_cap.to_string()}));
+    if alt.ok {
+        r.ev.violation("whitelisted_blocked", if vo.holding_cap != 0 && vo.oi_cap != 0 { "both_caps" } else if vo.holding_cap != 0 { "holding_cap" } else { "oi_cap" }, json!({"trader": actor, "error_with_caps": crate::run::tail(&out.err, 160)}));
     }
 }
